@@ -428,6 +428,8 @@ def plan(tier, seed):
     tasks.append(("bytes256", {}))
     tasks.append(("text_accept", {"full": not quick}))
     tasks.append(("doubles", {"n": 3000 if quick else 100000}))
+    for i in range(2 if quick else 8):
+        tasks.append(("reuse", {"shard": i, "n": 400 if quick else 10000}))
     if quick:
         tasks.append(("header", {"mode": "sampled"}))
     else:
@@ -441,7 +443,78 @@ def plan(tier, seed):
     return tasks
 
 
+@st.composite
+def reuse_strategy(draw):
+    f = draw(st.sampled_from(gi.SCALARS))
+    a = draw(gi.leaf(f, allow_nan=False, max_n=6))
+    b = draw(gi.leaf(f, allow_nan=False, max_n=6))
+    na = len(gi.expand(a))
+    ops = ["set", "decode"] + (["setitem", "setitem"] if na >= 1 and f not in ("A", "J") else [])
+    op = draw(st.sampled_from(ops))
+    case = {"reuse": {"f": f, "first": a, "second": b, "op": op}}
+    if op == "setitem":
+        case["reuse"]["index"] = draw(st.integers(0, na - 1))
+        case["reuse"]["elem"] = draw(gi.leaf(f, allow_nan=False, max_n=1).filter(lambda it: len(gi.expand(it)) == 1))
+    return case
+
+
+def check_reuse(case):
+    """An object that was already encoded once must encode (and report) its CURRENT value after it was changed through set(),
+    the indexer or decode(): the bytes are a function of the value, not of the object's history."""
+    r = case["reuse"]
+    f = r["f"]
+    cls = sg.cls_of(f)
+    first, second = r["first"], r["second"]
+    try:
+        obj = cls(sg.leaf_pyvalue(first, "list" if f not in ("A", "J", "B") else "bytes"))
+        b1 = obj.encode()
+    except Exception as exc:
+        return Failure(f"reuse:construct-raises:{f}", case, _exc(exc), "value accepted")
+    if b1 != e5.encode(gi.to_ref(first)):
+        return None  # the plain encode/round-trip tasks report this
+    cur = list(gi.expand(first))
+    try:
+        if r["op"] == "set":
+            obj.set(sg.leaf_pyvalue(second, "list" if f not in ("A", "J", "B") else "bytes"))
+            cur = list(gi.expand(second))
+        elif r["op"] == "decode":
+            obj.decode(e5.encode(gi.to_ref(second)))
+            cur = list(gi.expand(second))
+        else:
+            el = gi.expand(r["elem"])[0]
+            pv = sg.leaf_pyvalue(r["elem"], "list")[0] if f not in ("A", "J", "B") else el
+            obj[r["index"]] = pv
+            cur[r["index"]] = el
+    except Exception:
+        # whether the indexer / set() accepts the update is not C01's subject (observation: Binary's indexer raises for
+        # every index when the item has no count limit); only an update that was ACCEPTED must show up in the encoding
+        return None
+    want_item = {"f": f, "v": cur}
+    if f == "B" and r["op"] == "decode" and len(cur) == 0:
+        return None  # observation recorded in DESIGN section 5: Binary.decode of a zero-length item keeps the old value
+    want = e5.encode(gi.to_ref(want_item))
+    try:
+        got = obj.encode()
+        g = obj.get()
+    except Exception as exc:
+        return Failure(f"reuse:encode-raises:{f}", case, _exc(exc), want.hex()[:80])
+    if got != want:
+        return Failure(f"reuse:stale-encoding-after-{r['op']}:{'num' if f in gi.NUMS else f}", case, got.hex()[:80], want.hex()[:80])
+    if not sg.same_value(g, sg.expected_get(want_item)):
+        return Failure(f"reuse:stale-value-after-{r['op']}:{'num' if f in gi.NUMS else f}", case, repr(g)[:200], repr(sg.expected_get(want_item))[:200])
+    return None
+
+
 def run_task(name, kw, ctx):
+    if name == "reuse":
+
+        def body_reuse(case):
+            r = case["reuse"]
+            ctx.case(case, True, ["reuse", f"reuse:{r['op']}", f"reuse-fmt:{r['f']}"])
+            return check_reuse(case)
+
+        ctx.hyp(reuse_strategy(), body_reuse, kw["n"], seed_offset=700 + kw["shard"])
+        return
     if name == "gen":
         strat = st.builds(
             lambda dv, tail, top: {"desc": dv[0], "value": dv[1], "tail": tail.hex(), "top": top},
@@ -703,6 +776,8 @@ def check_text_accept(tc):
 
 
 def replay(case, ctx):
+    if "reuse" in case:
+        return check_reuse(case)
     if "text_accept" in case:
         return check_text_accept(case["text_accept"])
     if "header" in case:
